@@ -341,6 +341,68 @@ fn run(ctx: &mut Ctx) {
             }
         }
     }
+    // chains of 4 and 5 and/or operands (left-nested as the parser builds them and right-nested), every leaf-kind assignment:
+    // once an operand decides, nothing to its right is evaluated or type-checked
+    for len in [4usize, 5] {
+        let n = 5usize.pow(len as u32);
+        for code in 0..n {
+            if !ctx.mine() {
+                continue;
+            }
+            if len == 5 && code % 7 != 0 {
+                continue;
+            }
+            let mut c = code;
+            let leaves: Vec<Expr> = (0..len)
+                .map(|_| {
+                    let l = ids.leaf(LEAVES[c % 5]);
+                    c /= 5;
+                    l
+                })
+                .collect();
+            for (which, op) in [Expr::and as fn(Expr, Expr) -> Expr, Expr::or].into_iter().enumerate() {
+                let left = leaves.iter().cloned().reduce(|a, b| op(a, b)).unwrap();
+                let right = leaves.iter().cloned().rev().reduce(|a, b| op(b, a)).unwrap();
+                let mixed = leaves.iter().cloned().enumerate().reduce(|(i, a), (j, b)| (j, if (i + which) % 2 == 0 { Expr::and(a, b) } else { Expr::or(a, b) })).unwrap().1;
+                judge(ctx, &left, "logic-chains");
+                judge(ctx, &right, "logic-chains");
+                judge(ctx, &mixed, "logic-chains");
+            }
+        }
+    }
+    // wide strict constructs: lists, call arguments and maps with 9..40 call items (order must not depend on the number of items), map keys
+    // whose byte order, case-insensitive order and Unicode collation differ, equality with none on the left and a call under a built-in on the right
+    if ctx.mine() {
+        for n in [9usize, 16, 17, 33, 40] {
+            let items: Vec<Expr> = (0..n).map(|i| ids.leaf(if i == n - 2 { "e" } else { "v" })).collect();
+            judge(ctx, &Expr::Vec(items.clone()), "wide-strict-constructs");
+            judge(ctx, &Expr::func("v", Expr::Vec(items.clone())), "wide-strict-constructs");
+            judge(ctx, &Expr::contains(Expr::Vec(items.clone()), ids.leaf("v")), "wide-strict-constructs");
+            let keys = ["a", "B", "b", "Z", "z", "é", "e", "ä", "~", "_", "0", "10", "9", "\u{10000}", "\u{ffff}", "aa", "a_", "A", "Ω", "ω"];
+            let m: BTreeMap<String, Expr> = (0..n.min(keys.len())).map(|i| (keys[i].to_string(), ids.leaf("v"))).collect();
+            judge(ctx, &Expr::Map(m), "wide-strict-constructs");
+        }
+        for wrap in [Expr::int as fn(Expr) -> Expr, Expr::some, Expr::neg, Expr::uppercase] {
+            judge(ctx, &Expr::eq(ids.leaf("n"), wrap(ids.leaf("v"))), "wide-strict-constructs");
+            judge(ctx, &Expr::neq(ids.leaf("n"), wrap(ids.leaf("e"))), "wide-strict-constructs");
+            judge(ctx, &Expr::eq(Expr::index(Expr::Vec(vec![]), Index::from(3usize)), wrap(ids.leaf("v"))), "wide-strict-constructs");
+            judge(ctx, &Expr::eq(wrap(ids.leaf("n")), wrap(ids.leaf("v"))), "wide-strict-constructs");
+        }
+        // if with constant branches, constant condition of the wrong type, else-if chains of 12
+        for cond in ["t", "f", "n", "v", "e"] {
+            judge(ctx, &Expr::iif(ids.leaf(cond), Expr::value(1), Expr::value(2)), "wide-strict-constructs");
+        }
+        for bad in [Expr::value(1), Expr::value("x".to_string()), Expr::Value(Value::None), Expr::Vec(vec![])] {
+            judge(ctx, &Expr::iif(bad.clone(), ids.leaf("v"), ids.leaf("v")), "wide-strict-constructs");
+            judge(ctx, &Expr::and(bad.clone(), ids.leaf("v")), "wide-strict-constructs");
+            judge(ctx, &Expr::or(ids.leaf("f"), Expr::or(bad, ids.leaf("v"))), "wide-strict-constructs");
+        }
+        let mut chain = ids.leaf("v");
+        for k in 0..12 {
+            chain = Expr::iif(ids.leaf(if k == 7 { "t" } else { "f" }), ids.leaf("v"), chain);
+        }
+        judge(ctx, &chain, "wide-strict-constructs");
+    }
     // unreached positions holding constant sub-expressions that fail if evaluated (nothing to log — the
     // outcome shows it): literal division by zero, a bad cast, a type error, an unknown reference
     {
